@@ -56,20 +56,44 @@ Definition chk2 (m : M (list Z * list Z)) ds obs ids : bool :=
 Definition chk1 (m : M (list Z)) ds obs ids : bool :=
   outcome_eqb zl_eqb (run m ds) obs && ids_ok 1 obs ids.
 
-Definition check (c : case) : bool :=
+(* the twelve operators, so that the same runner serves the hand-written model and the definitions
+   regenerated from the source text (Corr/C09_gen.v) *)
+Record ops := mkops {
+  o_one_point : list Z -> list Z -> M (list Z * list Z);
+  o_two_point : list Z -> list Z -> M (list Z * list Z);
+  o_uniform : list Z -> list Z -> Q -> M (list Z * list Z);
+  o_messy : list Z -> list Z -> M (list Z * list Z);
+  o_es : list Z * list Z -> list Z * list Z -> M ((list Z * list Z) * (list Z * list Z));
+  o_pmx : list Z -> list Z -> M (list Z * list Z);
+  o_upmx : list Z -> list Z -> Q -> M (list Z * list Z);
+  o_ordered : list Z -> list Z -> M (list Z * list Z);
+  o_shuffle : list Z -> Q -> M (list Z);
+  o_flip : list gene -> Q -> M (list gene);
+  o_uniform_int : list Z -> bound -> bound -> Q -> M (list Z);
+  o_inversion : list Z -> M (list Z)
+}.
+
+Definition check_with (o : ops) (c : case) : bool :=
   match c with
-  | COnePoint p1 p2 ds obs ids => chk2 (cxOnePoint p1 p2) ds obs ids
-  | CTwoPoint p1 p2 ds obs ids => chk2 (cxTwoPoint p1 p2) ds obs ids
-  | CUniform p1 p2 pb ds obs ids => chk2 (cxUniform p1 p2 pb) ds obs ids
-  | CMessy p1 p2 ds obs ids => chk2 (cxMessyOnePoint p1 p2) ds obs ids
+  | COnePoint p1 p2 ds obs ids => chk2 (o_one_point o p1 p2) ds obs ids
+  | CTwoPoint p1 p2 ds obs ids => chk2 (o_two_point o p1 p2) ds obs ids
+  | CUniform p1 p2 pb ds obs ids => chk2 (o_uniform o p1 p2 pb) ds obs ids
+  | CMessy p1 p2 ds obs ids => chk2 (o_messy o p1 p2) ds obs ids
   | CES g1 s1 g2 s2 ds obs ids =>
-      outcome_eqb (pair_eqb zl2_eqb zl2_eqb) (run (cxESTwoPoint (g1, s1) (g2, s2)) ds) obs && ids_ok 2 obs ids
-  | CPMX p1 p2 ds obs ids => chk2 (cxPartialyMatched p1 p2) ds obs ids
-  | CUPMX p1 p2 pb ds obs ids => chk2 (cxUniformPartialyMatched p1 p2 pb) ds obs ids
-  | COrdered p1 p2 ds obs ids => chk2 (cxOrdered p1 p2) ds obs ids
-  | CShuffle p pb ds obs ids => chk1 (mutShuffleIndexes p pb) ds obs ids
+      outcome_eqb (pair_eqb zl2_eqb zl2_eqb) (run (o_es o (g1, s1) (g2, s2)) ds) obs && ids_ok 2 obs ids
+  | CPMX p1 p2 ds obs ids => chk2 (o_pmx o p1 p2) ds obs ids
+  | CUPMX p1 p2 pb ds obs ids => chk2 (o_upmx o p1 p2 pb) ds obs ids
+  | COrdered p1 p2 ds obs ids => chk2 (o_ordered o p1 p2) ds obs ids
+  | CShuffle p pb ds obs ids => chk1 (o_shuffle o p pb) ds obs ids
   | CFlip p pb ds obs ids =>
-      outcome_eqb (list_eqb gene_eqb) (run (mutFlipBit p pb) ds) obs && ids_ok 1 obs ids
-  | CUniformInt p low up pb ds obs ids => chk1 (mutUniformInt p low up pb) ds obs ids
-  | CInversion p ds obs ids => chk1 (mutInversion p) ds obs ids
+      outcome_eqb (list_eqb gene_eqb) (run (o_flip o p pb) ds) obs && ids_ok 1 obs ids
+  | CUniformInt p low up pb ds obs ids => chk1 (o_uniform_int o p low up pb) ds obs ids
+  | CInversion p ds obs ids => chk1 (o_inversion o p) ds obs ids
   end.
+
+Definition model_ops : ops :=
+  mkops (@cxOnePoint Z) (@cxTwoPoint Z) (@cxUniform Z) (@cxMessyOnePoint Z) (@cxESTwoPoint Z Z)
+        cxPartialyMatched cxUniformPartialyMatched cxOrdered
+        (@mutShuffleIndexes Z) mutFlipBit mutUniformInt (@mutInversion Z).
+
+Definition check : case -> bool := check_with model_ops.
